@@ -28,7 +28,7 @@ func (e *Engine) call(fr *Frame, st *State, c *ssa.CallCommon, instr *ssa.Call, 
 			args = append(args, fr.get(e, a))
 		}
 		// interface method contract: "<pkgrel>.<Iface>.<Method>"
-		if nt, ok := c.Value.Type().(*types.Named); ok && nt.Obj().Pkg() != nil {
+		if nt, ok := types.Unalias(c.Value.Type()).(*types.Named); ok && nt.Obj().Pkg() != nil {
 			key := strings.TrimPrefix(nt.Obj().Pkg().Path(), modPrefix) + "." + nt.Obj().Name() + "." + c.Method.Name()
 			if ct := e.w.contracts[key]; ct != nil {
 				return e.callContract(fr, st, nil, ct, key, args, c.Method.Type().(*types.Signature), rt, pos, true), true
@@ -529,7 +529,62 @@ func mapKeys(mt types.Type) (string, string) {
 
 func (e *Engine) mapSorts(mt *types.Map) (Sort, bool) {
 	ks := e.ar.scalarSortOrEmpty(mt.Key())
+	if ks == "" {
+		if _, ok := pairKeyElem(mt.Key()); ok {
+			return e.ar.idxSort(), true
+		}
+	}
 	return ks, ks != ""
+}
+
+// pairKeyElem: map keys of type [2]T with T an integer type of at most 32 bits are packed injectively into one
+// 64-bit key (first element in the high half).
+func pairKeyElem(t types.Type) (types.Type, bool) {
+	a, ok := t.Underlying().(*types.Array)
+	if !ok || a.Len() != 2 {
+		return nil, false
+	}
+	w, _, isInt := intInfo(a.Elem())
+	if !isInt || w > 32 {
+		return nil, false
+	}
+	return a.Elem(), true
+}
+
+// mapKeyTerm: the SMT key for a Go map key value.
+func (e *Engine) mapKeyTerm(mt *types.Map, v Val) Term {
+	et, ok := pairKeyElem(mt.Key())
+	if !ok {
+		return e.scalar(v)
+	}
+	av, isArr := v.(ArrayV)
+	if !isArr {
+		unsupp("pair map key of kind %T", v)
+	}
+	var a0, a1 Term
+	if av.E != nil {
+		if len(av.E) != 2 {
+			unsupp("pair map key with %d elements", len(av.E))
+		}
+		a0, a1 = e.scalar(av.E[0]), e.scalar(av.E[1])
+	} else {
+		a0, a1 = Select(av.A, e.ar.idxLit(0)), Select(av.A, e.ar.idxLit(1))
+	}
+	w, signed, _ := intInfo(et)
+	if e.ar.mode == ModeBV {
+		ext := "zero_extend"
+		if signed {
+			ext = "sign_extend"
+		}
+		hi := Term{fmt.Sprintf("((_ %s %d) %s)", ext, 32-w, a0.S), SBV(32)}
+		lo := Term{fmt.Sprintf("((_ %s %d) %s)", ext, 32-w, a1.S), SBV(32)}
+		if w == 32 {
+			hi, lo = a0, a1
+		}
+		return Term{fmt.Sprintf("(concat %s %s)", hi.S, lo.S), SBV(64)}
+	}
+	// int mode: elements lie in a range of width 2^32, so hi*2^32+lo is injective
+	return Term{fmt.Sprintf("(+ (* 4294967296 %s) %s)", a0.S, a1.S), SInt}
 }
 
 // mapLenKey: ghost length of maps (exact for new maps, havocked by updates/deletes).
@@ -592,7 +647,7 @@ func (e *Engine) mapUpdate(fr *Frame, st *State, x *ssa.MapUpdate) {
 		e.mapHavoc(st, m)
 		return
 	}
-	kt := e.scalar(fr.get(e, x.Key))
+	kt := e.mapKeyTerm(mt, fr.get(e, x.Key))
 	hk, vk := mapKeys(mt)
 	hs := SArr(e.rs(), SArr(ks, SBool))
 	hm := e.heapGetRaw(st, hk, hs)
@@ -629,7 +684,7 @@ func (e *Engine) lookup(fr *Frame, st *State, x *ssa.Lookup) Val {
 		}
 		return v
 	}
-	kt := e.scalar(fr.get(e, x.Index))
+	kt := e.mapKeyTerm(mt, fr.get(e, x.Index))
 	hk, vk := mapKeys(mt)
 	hm := e.heapGetRaw(st, hk, SArr(e.rs(), SArr(ks, SBool)))
 	has := Select(Select(hm, bs.T), kt)
